@@ -292,15 +292,28 @@ func (c *Case) Render(o RenderOpts) string {
 	if o.Union != "" {
 		sb.WriteString("%union {\n" + o.Union + "\n}\n")
 	}
-	for _, t := range c.Tokens {
-		sb.WriteString("%token ")
-		if t.Tag != "" {
-			sb.WriteString("<" + t.Tag + "> ")
+	// consecutive tokens with the same tag are sometimes declared in one %token directive
+	// ("%token <t> A 300 B C"), chosen by the case's name
+	group := idHash(c.ID+"g")%2 == 0
+	for i, t := range c.Tokens {
+		cont := group && i > 0 && c.Tokens[i-1].Tag == t.Tag
+		if cont {
+			sb.WriteString(" ")
+		} else {
+			if i > 0 {
+				sb.WriteString("\n")
+			}
+			sb.WriteString("%token ")
+			if t.Tag != "" {
+				sb.WriteString("<" + t.Tag + "> ")
+			}
 		}
 		sb.WriteString(symText(t.Sym()))
 		if t.Num != 0 {
 			sb.WriteString(fmt.Sprintf(" %d", t.Num))
 		}
+	}
+	if len(c.Tokens) > 0 {
 		sb.WriteString("\n")
 	}
 	for _, p := range c.Prec {
@@ -448,7 +461,7 @@ func productiveSet(c *Case) map[string]bool {
 
 var randNT = []string{"S", "A", "B", "C", "D"}
 var randTid = []string{"a", "b", "c", "d", "e"}
-var randTlit = []string{"'+'", "'-'", "'*'", "'('", "')'", "'='", "','"}
+var randTlit = []string{"'+'", "'-'", "'*'", "'('", "')'", "'='", "','", "'a'", "'e'", "'o'", "'p'", "'r'", "'t'", "'x'", "'$'", "'%'"}
 
 type Knobs struct {
 	NNT, NT          int
@@ -1134,4 +1147,51 @@ func idHash(s string) int {
 		h = (h*31 + int(ch)) % 1000003
 	}
 	return h
+}
+
+// GenCtx2: several left contexts (prefix tokens) share a nonterminal X whose bodies are single tokens; in each
+// context X is followed by one to three different tokens, and some contexts also use X's body tokens directly
+// (so the states after a body token are shared between "X -> t ." and "S -> p t . g").  Reduce points with
+// several lookbacks and follow sets of sizes 1..4: the shape where shared set storage goes wrong.
+func GenCtx2(r *rand.Rand, id string) *Case {
+	c := &Case{ID: id, Family: "ctx2", Start: "S", Types: map[string]string{}}
+	npre := 2 + r.Intn(3)
+	nbody := 2 + r.Intn(2)
+	var pre, body []string
+	for i := 0; i < npre; i++ {
+		pre = append(pre, fmt.Sprintf("p%d", i))
+	}
+	for i := 0; i < nbody; i++ {
+		body = append(body, fmt.Sprintf("t%d", i))
+	}
+	for _, s := range append(append([]string{}, pre...), body...) {
+		c.Tokens = append(c.Tokens, Tok{Name: s})
+	}
+	fcount := 0
+	newF := func() string {
+		f := fmt.Sprintf("f%d", fcount)
+		fcount++
+		c.Tokens = append(c.Tokens, Tok{Name: f})
+		return f
+	}
+	for i, p := range pre {
+		nf := 1 + r.Intn(3)
+		if i == 0 {
+			nf = 3
+		}
+		for j := 0; j < nf; j++ {
+			c.Rules = append(c.Rules, Rule{Lhs: "S", Rhs: []string{p, "X", newF()}})
+		}
+		if i > 0 && r.Intn(3) != 0 {
+			c.Rules = append(c.Rules, Rule{Lhs: "S", Rhs: []string{p, body[r.Intn(len(body))], newF()}})
+		}
+	}
+	for _, b := range body {
+		c.Rules = append(c.Rules, Rule{Lhs: "X", Rhs: []string{b}})
+	}
+	if r.Intn(3) == 0 {
+		c.Rules = append(c.Rules, Rule{Lhs: "X", Rhs: []string{}})
+	}
+	r.Shuffle(len(c.Rules), func(i, j int) { c.Rules[i], c.Rules[j] = c.Rules[j], c.Rules[i] })
+	return c
 }
